@@ -51,10 +51,23 @@ func c04rCanon(m *dns.Msg) string {
 func c04rSetup(qs []int, s *xsched.Sched) *c04rEnv {
 	env := &c04rEnv{rig: ecsNewRig("ok", false), got: make([]string, len(qs))}
 	for i, qi := range qs {
-		s.Go(fmt.Sprintf("T%d", i), func() {
+		t := s.Go(fmt.Sprintf("T%d", i), func() {
 			resp, _, _ := env.rig.query(c04rQueries[qi], uint16(0x100+i))
 			env.got[i] = c04rCanon(resp)
 		})
+		// In the four-request scenarios only the first and the third request
+		// are preempted (the miss that is overtaken and the hit that holds an
+		// entry); the other two run from start to end wherever they are
+		// scheduled.
+		t.Atomic = len(qs) == 4 && (i == 1 || i == 3)
+		if len(qs) == 4 {
+			// ... and only inside the cache operations and around the
+			// upstream exchange: the interleavings of the rest of the request
+			// path are covered by the pairs and triples.
+			t.Only = func(label string) bool {
+				return strings.HasPrefix(label, "cache.go:") || strings.HasPrefix(label, "upstream:")
+			}
+		}
 	}
 
 	return env
@@ -85,7 +98,13 @@ func c04rCheck(qs []int, fresh map[int]string, env *c04rEnv, x *xsched.Exec) []v
 }
 
 func TestVerifC04ECSRace(t *testing.T) {
-	r := vrt.Start("C04")
+	// The unit also serves C07 (a message still in use is never recycled): the
+	// driver then sets VERIF_PROP.
+	prop := "C04"
+	if p := os.Getenv("VERIF_PROP"); p != "" {
+		prop = p
+	}
+	r := vrt.Start(prop)
 	ecsInit()
 	debug.SetGCPercent(-1)
 	synctest.Test(t, func(t *testing.T) {
@@ -112,8 +131,13 @@ func TestVerifC04ECSRace(t *testing.T) {
 					scenarios = append(scenarios, []int{a, b})
 				}
 			}
+			// Four requests, three of them for one key: two concurrent misses
+			// (the second store replaces the entry of the first), a hit that
+			// has fetched the entry but not yet copied it, and a request for
+			// another name that takes objects from the pools in between.
+			scenarios = append(scenarios, []int{0, 0, 0, 2})
 			if r.Thorough() {
-				scenarios = append(scenarios, []int{0, 1, 2}, []int{2, 3, 4}, []int{0, 4, 5})
+				scenarios = append(scenarios, []int{0, 1, 2}, []int{2, 3, 4}, []int{0, 4, 5}, []int{2, 2, 2, 0}, []int{3, 3, 3, 0}, []int{0, 0, 1, 2})
 			}
 			for si, qs := range scenarios {
 				if si%nshards != shard {
